@@ -92,7 +92,7 @@ func (c *callCtx) readFull(src byteSource, dst *SV) (string, *SV) {
 	vc, st := c.vc, c.n.St
 	nn := vc.freshS(SBV64, "nfull")
 	err := vc.freshError(st, "rferr")
-	vc.assume(and(app("bvsle", bvLit(64, 0), nn), app("bvsle", nn, dst.C[2]), eq(not(isErr(err)), eq(nn, dst.C[2]))))
+	vc.assume(implies(c.n.Reach, and(app("bvsle", bvLit(64, 0), nn), app("bvsle", nn, dst.C[2]), eq(not(isErr(err)), eq(nn, dst.C[2])))))
 	if src.limit != nil {
 		// field N is the 4th cell of LimitedReader{R Reader (3 cells), N int64}
 		np := &SV{C: []string{src.limit.C[0], cellIdx(src.limit.C[1], 3)}}
@@ -179,7 +179,7 @@ func init() {
 		p, off := c.args[0], c.args[1].C[0]
 		nn := vc.freshS(SBV64, "nwritten")
 		err := vc.freshError(st, "werr")
-		vc.assume(and(app("bvsle", bvLit(64, 0), nn), app("bvsle", nn, p.C[2]), implies(app("bvslt", nn, p.C[2]), isErr(err))))
+		vc.assume(implies(c.n.Reach, and(app("bvsle", bvLit(64, 0), nn), app("bvsle", nn, p.C[2]), implies(app("bvslt", nn, p.C[2]), isErr(err)))))
 		c.fileWrite(f, off, p, nn, constLen(p.C[2], p.C[3]), false)
 		return tupleSV(c.method.Type().(*types.Signature).Results(), &SV{T: intType, C: []string{nn}}, err), true
 	}
@@ -199,7 +199,7 @@ func init() {
 		p := c.args[0]
 		nn := vc.freshS(SBV64, "nwritten")
 		err := vc.freshError(st, "werr")
-		vc.assume(and(app("bvsle", bvLit(64, 0), nn), app("bvsle", nn, p.C[2]), implies(app("bvslt", nn, p.C[2]), isErr(err))))
+		vc.assume(implies(c.n.Reach, and(app("bvsle", bvLit(64, 0), nn), app("bvsle", nn, p.C[2]), implies(app("bvslt", nn, p.C[2]), isErr(err)))))
 		vc.saneFile(f)
 		pos := vc.defS(SBV64, sel(st.H["Fpos"], f), "fpos")
 		c.fileWrite(f, pos, p, nn, constLen(p.C[2], p.C[3]), true)
